@@ -25,7 +25,10 @@ def install(case, B=None, cls=None):
     if cls is None:
         from .mgr import nodel_class
         cls = nodel_class(B)    # the shutdown assertion is exercised in C08 only
-    bdd = cls({nm: i for i, nm in enumerate(names)})
+    items = [(nm, i) for i, nm in enumerate(names)]
+    if case.get('decl') == 'reversed':
+        items.reverse()
+    bdd = cls(dict(items))
     succ = {1: (L, None, None)}
     for k, (lv, lo, hi) in case['succ'].items():
         succ[int(k)] = (lv, lo, hi)
